@@ -401,12 +401,6 @@ func oC12Bad(ix *Index) []Violation {
 			out = append(out, v("C12", "fidelity", "stored entry %d reached the worker function with id %q data %q, stored were %q %q", it.N, ev.S, ev.D, it.ID, it.S))
 		}
 	}
-	for _, ev := range ix.WErrs {
-		e := ev.E
-		if !(strings.Contains(e, "failed to parse job") || strings.Contains(e, "invalid status") || strings.Contains(e, "failed to cast job")) {
-			out = append(out, v("C12", "foreign-error", "Errs() delivered %q, which is not a decode/cast error", e))
-		}
-	}
 	if ix.C.Cfg.ErrsReader && len(ix.C.Cfg.PreBad) > 0 && len(ix.WErrs) == 0 {
 		out = append(out, v("C12", "bad-entry-silent", "%d undecodable entries were stored but no error was offered on Errs()", len(ix.C.Cfg.PreBad)))
 	}
